@@ -395,8 +395,51 @@ def ragged_fail(B):
     B.obs.append(('dump3', B.dump('e')))
 
 
+def readonly(B):
+    d = B.darr
+    for tag, n in (('n3', 3), ('n0', 0)):
+        if n:
+            d.asarray(B.path(tag), B.arr('x' + tag, n, (2,), 'int32', 'little'), metadata={'k': 1, 'z': [1, 2]})
+        else:
+            d.create_array(B.path(tag), shape=(0, 2), dtype='int32', metadata={'k': 1, 'z': [1, 2]})
+        a = d.Array(B.path(tag))
+        attempt(B, 'set' + tag, lambda: a.__setitem__(slice(None), 1))
+        attempt(B, 'app' + tag, lambda: a.append(B.arr('c' + tag, 1, (2,), 'int32', 'little', 7)))
+        attempt(B, 'mdu' + tag, lambda: a.metadata.update({'n': 1}))
+        attempt(B, 'mdp' + tag, lambda: a.metadata.pop('k'))
+        attempt(B, 'mdpi' + tag, lambda: a.metadata.popitem())
+        attempt(B, 'tr' + tag, lambda: d.truncate_array(a, 0))
+        B.obs.append(('dumpA' + tag, B.dump(tag)))
+        a.accessmode = 'r+'
+        attempt(B, 'mdu2' + tag, lambda: a.metadata.update({'n': 1}))
+        attempt(B, 'mdp2' + tag, lambda: a.metadata.pop('k'))
+        B.obs.append(('md' + tag, sorted(a.metadata.keys())))
+        attempt(B, 'mdpi2' + tag, lambda: a.metadata.popitem())
+        attempt(B, 'mdpi3' + tag, lambda: a.metadata.popitem())
+        B.obs.append(('dumpB' + tag, B.dump(tag)))
+        a.accessmode = 'r'
+        attempt(B, 'del' + tag, lambda: d.delete_array(a))
+        B.obs.append(('dumpC' + tag, B.dump(tag)))
+        a.accessmode = 'r+'
+        attempt(B, 'del2' + tag, lambda: d.delete_array(a))
+        B.obs.append(('dumpD' + tag, B.dump(tag)))
+    d.asraggedarray(B.path('r'), [B.arr('r0', 2, (), 'float64', 'little')], metadata={'k': 1})
+    r = d.RaggedArray(B.path('r'))
+    attempt(B, 'rapp', lambda: r.append(B.arr('r1', 1, (), 'float64', 'little', 9)))
+    attempt(B, 'rtr', lambda: d.truncate_raggedarray(r, 0))
+    attempt(B, 'rdel', lambda: d.delete_raggedarray(r))
+    attempt(B, 'rmd', lambda: r.metadata.update({'q': 2}))
+    B.obs.append(('dumpR', B.dump('r')))
+    r.accessmode = 'r+'
+    attempt(B, 'rmd2', lambda: r.metadata.update({'q': 2}))
+    attempt(B, 'rapp2', lambda: r.append(B.arr('r2', 1, (), 'float64', 'little', 9)))
+    B.obs.append(('dumpR2', B.dump('r')))
+    attempt(B, 'rdel2', lambda: d.delete_raggedarray(r))
+    B.obs.append(('dumpR3', B.dump('r')))
+
+
 SCENARIOS = {f.__name__: f for f in [array_basic, array_append, array_truncate, array_assign,
-                                        array_failappend, ragged_basic, ragged_fail]}
+                                        array_failappend, ragged_basic, ragged_fail, readonly]}
 
 
 def run(names, stub_readme=True):
